@@ -409,6 +409,10 @@ func normJSON(v any) any {
 
 // want builds the expected record of one dynamic unit.
 func want(tmpl string, sp Spec) (any, string, error) {
+	if strings.HasPrefix(sp.Shape, "enum_") {
+		EnumMu.Lock() // the enum types look their text up in a package variable set by Go()
+		defer EnumMu.Unlock()
+	}
 	v := sp.Go()
 	vj, err := json.Marshal(v)
 	if err != nil {
@@ -1023,7 +1027,7 @@ var intLeaves = []string{"0", "1", "-1", "42", "2147483647", "-2147483648", "429
 // ---------------------------------------------------------------- Run
 
 func Run(c *core.Ctx) {
-	c.Rule = "cases = (JavaScript position, Go value): one compiled templ component per position, each evaluated unit decided by V8 against the value's JSON (or the original string inside literals). Positions: {{ v }} bare / in '…' \"…\" `…` literals / combinations; script templates and templ.JSFuncCall as component and in on*/hx-on attributes; templ.JSONScript; templ.JSONString in a data attribute alone and combined with every other API in one render (both orders); JSFuncCall function names; static JavaScript that stresses the parser's quote state (escaped quotes of each kind, escaped backslash before the closing quote, other quote kinds inside a literal, comments with quotes, ${} holes and nested template literals, backslash line continuations in '…' and \"…\", multi-line template literals); two and three ADJACENT interpolations in each literal kind and bare, fed the pieces of one string cut at every character boundary (short strings) or at seeded cuts; a value directly before/after static text that would complete ${, </script, <!-- or an escape with it; every literal / quote-state / multi-line position a second time from a file with CRLF line endings. Values = shape(leaf): leaf strings from every byte, code points U+0080-U+07FF + boundary list, all strings of length<=3 (quick) / <=4 (thorough) over a 21-symbol JavaScript/HTML metacharacter alphabet, JS-injection vectors with single-edit mutations, seeded random strings, 4-20 KB strings; shapes = plain string, named string, []any, []string, map value, map key, map[string]string, nested maps/slices, struct, JSON literals (numbers incl. -0, 1e308, +-2^53, bools, null, nested containers, hostile keys), int64, and pre-encoded JSON: json.RawMessage (compact, indented, bare string), a json.Marshaler, RawMessage inside struct/map/slice, with the leaf inside strings and <, >, &, U+2028/9 left raw; sized and named numeric Go types (float32/64, int8..int64, uint8..uint64, uintptr, named types, pointers, and float32 inside slices/arrays/structs/maps) with values not exactly representable in binary32, -0, MaxFloat32 and the smallest subnormals - numbers are compared bit for bit (float64 == plus the sign of zero); values encoding/json refuses (map[bool]string, structs with chan/func fields, NaN/-Inf inside containers, a failing MarshalJSON) carrying the leaf: for these only the structure is judged (tokenizer skeleton, static text, lexical breakout monitors), a Render error or a call without the argument is accepted. Sampling: elementary positions get every value; composite positions every vector, shaped vector and non-string plus every 4th (API combinations 8th, CRLF spellings 8th/16th) other value. non-trivial = the leaf contains a byte the encoders must transform (quote, backslash, <>&+/$, control, U+2028/9, invalid UTF-8) or the value is not a plain string; distinct by (position, shape, leaf, cuts)"
+	c.Rule = "cases = (JavaScript position, Go value): one compiled templ component per position, each evaluated unit decided by V8 against the value's JSON (or the original string inside literals). Positions: {{ v }} bare / in '…' \"…\" `…` literals / combinations; script templates and templ.JSFuncCall as component and in on*/hx-on attributes; templ.JSONScript; templ.JSONString in a data attribute alone and combined with every other API in one render (both orders); JSFuncCall function names; static JavaScript that stresses the parser's quote state (escaped quotes of each kind, escaped backslash before the closing quote, other quote kinds inside a literal, comments with quotes, ${} holes and nested template literals, backslash line continuations in '…' and \"…\", multi-line template literals); two and three ADJACENT interpolations in each literal kind and bare, fed the pieces of one string cut at every character boundary (short strings) or at seeded cuts; a value directly before/after static text that would complete ${, </script, <!-- or an escape with it; every literal / quote-state / multi-line position a second time from a file with CRLF line endings. Values = shape(leaf): leaf strings from every byte, code points U+0080-U+07FF + boundary list, all strings of length<=3 (quick) / <=4 (thorough) over a 21-symbol JavaScript/HTML metacharacter alphabet, JS-injection vectors with single-edit mutations, seeded random strings, 4-20 KB strings; shapes = plain string, named string, []any, []string, map value, map key, map[string]string, nested maps/slices, struct, JSON literals (numbers incl. -0, 1e308, +-2^53, bools, null, nested containers, hostile keys), int64, and pre-encoded JSON: json.RawMessage (compact, indented, bare string), a json.Marshaler, RawMessage inside struct/map/slice, with the leaf inside strings and <, >, &, U+2028/9 left raw; sized and named numeric Go types (float32/64, int8..int64, uint8..uint64, uintptr, named types, pointers, and float32 inside slices/arrays/structs/maps) with values not exactly representable in binary32, -0, MaxFloat32 and the smallest subnormals - numbers are compared bit for bit (float64 == plus the sign of zero); values encoding/json refuses (map[bool]string, structs with chan/func fields, NaN/-Inf inside containers, a failing MarshalJSON) carrying the leaf: for these only the structure is judged (tokenizer skeleton, static text, lexical breakout monitors), a Render error or a call without the argument is accepted; values whose Go kind is int/uint/float/bool but whose JSON encoding (MarshalJSON / MarshalText, value and pointer receivers, top level and in slices/arrays/maps incl. map keys) is a string or object carrying the leaf. Sampling: elementary positions get every value; composite positions every vector, shaped vector and non-string plus every 4th (API combinations 8th, CRLF spellings 8th/16th) other value. non-trivial = the leaf contains a byte the encoders must transform (quote, backslash, <>&+/$, control, U+2028/9, invalid UTF-8) or the value is not a plain string; distinct by (position, shape, leaf, cuts)"
 	c.Assume("V8 (rogchap.com/v8go v0.9.0) evaluates the emitted JavaScript as a browser would; golang.org/x/net/html tokenizes as a browser would; each script element / on* attribute is evaluated in a fresh context after a prelude defining the recording sink functions and the function definitions emitted earlier in the same document")
 	c.Assume("numbers are compared as float64 and integers beyond +-2^53 are not generated; strings are compared after replacing invalid UTF-8 by U+FFFD and collapsing U+FFFD runs; templ.JSExpression and JSUnsafeFuncCall are documented trusted code and excluded; a raw U+2028/U+2029 inside a quoted literal is treated as ending it (pre-ES2019 engines)")
 	e := build(c)
@@ -1200,9 +1204,28 @@ func Run(c *core.Ctx) {
 	// sized and named numeric Go types, top level and inside containers (compared bit for bit)
 	nNum := len(vals)
 	for _, l := range numLeaves() {
-		add(MkSpec("num", l), 4)
+		if strings.HasPrefix(l, "f32:") || strings.HasPrefix(l, "nf32:") || strings.HasPrefix(l, "sf32:") {
+			add(MkSpec("num", l), 4)
+		} else {
+			add(MkSpec("num", l), 1)
+		}
 	}
 	c.Set("values_sized_numeric_types", len(vals)-nNum)
+	// numeric / bool KIND whose JSON encoding is a string or object carrying the leaf
+	nEnum := len(vals)
+	for i, s := range jsVectors {
+		for k, sh := range EnumShapes {
+			if k < 3 && i%4 == 0 {
+				add(MkSpec(sh, s), 4)
+			} else {
+				add(MkSpec(sh, s), 1)
+			}
+		}
+	}
+	for i, n := 0, c.Pick(300, 8000); i < n; i++ {
+		add(MkSpec(EnumShapes[rnd.Intn(len(EnumShapes))], leaves[rnd.Intn(len(leaves))]), 1)
+	}
+	c.Set("values_numeric_kind_with_text_encoding", len(vals)-nEnum)
 	// values encoding/json refuses, carrying hostile text
 	nUnenc := len(vals)
 	for _, s := range jsVectors {
